@@ -58,6 +58,29 @@ func heldAtEntry(r *RT, field string) map[*ssa.Function]bool {
 }
 
 // C14 — the server answers every two-way request exactly once with a well-formed reply.
+// nilToNil: an error filter returns nil (or the error itself) on the edge where
+// its error parameter is nil.
+func nilToNil(g *ssa.Function) bool {
+	for _, p := range g.Params {
+		if !isErrorType(p.Type()) {
+			continue
+		}
+		succ := errNilSuccessor(p)
+		if succ == nil {
+			continue
+		}
+		for ret, vs := range ReturnedValues(g) {
+			if ret.Block() != succ && !succ.Dominates(ret.Block()) {
+				continue
+			}
+			if nilErrorReturn(ret) || (len(vs) == 1 && ssax.Strip(vs[0]) == ssa.Value(p)) {
+				return true
+			}
+		}
+	}
+	return false
+}
+
 func C14(ctx *core.Ctx) {
 	ctx.Explanation = "Decides the runtime-side structure behind 'exactly one well-formed reply': every write/flush on the output protocol in the processor runtime happens with the processor's write mutex held (helpers are only called with it held), the mutex is released on every exit and never re-acquired by a callee; " +
 		"the unknown-method branch consumes the arguments (Skip + ReadMessageEnd) and then writes exactly one EXCEPTION/UNKNOWN_METHOD message (response header ≺ message begin ≺ body ≺ message end ≺ flush) carrying the request's context; SendReply/sendError write their message in that order exactly once; " +
@@ -169,13 +192,19 @@ func C14(ctx *core.Ctx) {
 						}
 					}
 				}
+				// the same objects as seen from an extracted helper
+				iprotA, oprotA := valueAliases(iprot), valueAliases(oprot)
+				fctxA := map[ssa.Value]bool{}
+				if fctx != nil {
+					fctxA = valueAliases(fctx)
+				}
 				isSkip := func(in ssa.Instruction) bool {
 					c, ok := ssax.AsCall(in)
 					if !ok {
 						return false
 					}
 					p, op := protoOp(c)
-					if op != "Skip" || p != ssa.Value(iprot) {
+					if op != "Skip" || !iprotA[p] {
 						return false
 					}
 					k, isC := ssax.ConstInt(c.Common.Args[len(c.Common.Args)-1])
@@ -187,7 +216,7 @@ func C14(ctx *core.Ctx) {
 						return false
 					}
 					p, op := protoOp(c)
-					return op == "WriteResponseHeader" && p == ssa.Value(oprot) && fctx != nil && ssax.Strip(c.Common.Args[1]) == ssax.Strip(fctx)
+					return op == "WriteResponseHeader" && oprotA[p] && fctx != nil && fctxA[ssax.Strip(c.Common.Args[1])]
 				}
 				isBegin := func(in ssa.Instruction) bool {
 					c, ok := ssax.AsCall(in)
@@ -195,7 +224,7 @@ func C14(ctx *core.Ctx) {
 						return false
 					}
 					p, op := protoOp(c)
-					if op != "WriteMessageBegin" || p != ssa.Value(oprot) {
+					if op != "WriteMessageBegin" || !oprotA[p] {
 						return false
 					}
 					// (ctx, name, EXCEPTION=3, seq)
@@ -208,7 +237,7 @@ func C14(ctx *core.Ctx) {
 						return false
 					}
 					p, op := protoOp(c)
-					if op != "body.Write" || p != ssa.Value(oprot) {
+					if op != "body.Write" || !oprotA[p] {
 						return false
 					}
 					// receiver is NewTApplicationException(UNKNOWN_METHOD, …)
@@ -225,7 +254,7 @@ func C14(ctx *core.Ctx) {
 					{"WriteMessageEnd", protoStep(oprot, "WriteMessageEnd")},
 					{"Flush", protoStep(oprot, "Flush")},
 				}
-				checkSequence(ctx, r, "C14.R3", pn+" › unknown-method reply", proc, from, steps, nilErrorReturn)
+				checkSequence(ctx, r, "C14.R3", pn+" › unknown-method reply", proc, from, steps, successReturn)
 			}
 			// R6: hit edge returns nil whatever the processor function returned
 			okNil := true
@@ -284,15 +313,36 @@ func C14(ctx *core.Ctx) {
 		steps := []seqStep{{"WriteResponseHeader(fctx)", isHdr}, {"WriteMessageBegin(REPLY)", isBegin}, {"result.Write", protoStep(op, "body.Write")},
 			{"WriteMessageEnd", protoStep(op, "WriteMessageEnd")}, {"Flush", protoStep(op, "Flush")}}
 		// success = return nil not through trapError: the final return nil
+		trap := r.roleTrapError()
 		goal := func(ret *ssa.Return) bool {
-			if !nilErrorReturn(ret) {
+			if nilErrorReturn(ret) {
+				v := ssax.Strip(ResolveLocal(ret.Results[0]))
+				_, isConst := v.(*ssa.Const)
+				return isConst
+			}
+			// `return trapError(…, writeReply(…))`: the error filter is handed the
+			// untested result of the writing helper and maps nil to nil
+			c, ok := ssax.Strip(ResolveLocal(ret.Results[0])).(*ssa.Call)
+			if !ok || trap == nil || c.Call.StaticCallee() != trap || !nilToNil(trap) {
 				return false
 			}
-			v := ssax.Strip(ResolveLocal(ret.Results[0]))
-			_, isConst := v.(*ssa.Const)
-			return isConst
+			for _, a := range c.Call.Args {
+				if w, isCall := ssax.Strip(a).(*ssa.Call); isCall && isErrorType(w.Type()) {
+					tested := false
+					for _, u := range *w.Referrers() {
+						if _, isB := u.(*ssa.BinOp); isB {
+							tested = true
+						}
+					}
+					if g := w.Call.StaticCallee(); g != nil && g.Pkg == r.Pkg && !tested {
+						return true
+					}
+				}
+			}
+			return false
 		}
-		checkSequence(ctx, r, "C14.R3", ssax.Name(sr)+" › reply message", sr, nil, steps, goal)
+		// what the error filter writes (the too-large reply) is C12's subject
+		checkSequence(ctx, r, "C14.R3", ssax.Name(sr)+" › reply message", sr, nil, steps, goal, trap)
 	}
 	if se := r.roleSendError(); se != nil {
 		var op *ssa.Parameter
